@@ -78,9 +78,18 @@ func UnlinkFileAt(dir *os.File, filename string) error {
 	return unix.Unlinkat(int(dir.Fd()), filename, 0)
 }
 
+// tempFileSuffix is appended to the name of a file while it's being written
+const tempFileSuffix = ".tmp"
+
 // WriteFileAt writes to a new file in given directory
+//
+// The data is written to a temporary file first and renamed to the final name only after everything is written and
+// closed successfully, so a file of the given name is either complete or doesn't exist - even if the process is
+// killed in the middle of writing.
 func WriteFileAt(dir *os.File, filename string, data []byte, perm os.FileMode) error {
-	fd, oerr := unix.Openat(int(dir.Fd()), filename, unix.O_WRONLY|unix.O_CREAT|unix.O_TRUNC, uint32(perm))
+	dirFD := int(dir.Fd())
+	tempname := filename + tempFileSuffix
+	fd, oerr := unix.Openat(dirFD, tempname, unix.O_WRONLY|unix.O_CREAT|unix.O_TRUNC, uint32(perm))
 	if oerr != nil {
 		return oerr
 	}
@@ -89,7 +98,15 @@ func WriteFileAt(dir *os.File, filename string, data []byte, perm os.FileMode) e
 	if cerr := unix.Close(fd); werr == nil {
 		werr = cerr
 	}
-	return werr
+	if werr != nil {
+		unix.Unlinkat(dirFD, tempname, 0) //nolint:errcheck // best effort, the original error is what matters
+		return werr
+	}
+	if rerr := unix.Renameat(dirFD, tempname, dirFD, filename); rerr != nil {
+		unix.Unlinkat(dirFD, tempname, 0) //nolint:errcheck // best effort, the original error is what matters
+		return rerr
+	}
+	return nil
 }
 
 // writeAllToFD writes the whole data, continuing after short writes
